@@ -15,6 +15,7 @@ import hashlib
 import json
 import os
 import random
+import re
 import subprocess
 
 import vlib
@@ -39,6 +40,35 @@ def special_inputs():
     return out
 
 
+PRIMS = {"i8", "i16", "i32", "i64", "i128", "isize", "u8", "u16", "u32", "u64", "u128", "usize", "bool", "char", "str", "f32", "f64"}
+
+
+def twins(item):
+    """an adversarial neighbour of an input for state shared between expansions: the same text with the roles of
+    its names exchanged - a generic item without its parameter list (its parameters' names now denote concrete
+    types), a non-generic item with the type names of its fields declared as parameters. Expansion is syntactic, so
+    the twin need not type-check; a cache keyed by a field's spelling, name or position answers differently for it."""
+    m = re.search(r"\b(struct|enum)\s+(r#)?(\w+)\s*", item)
+    if not m:
+        return []
+    pos = m.end()
+    if item[pos:pos + 1] == "<":
+        depth = 0
+        for j in range(pos, len(item)):
+            if item[j] == "<":
+                depth += 1
+            elif item[j] == ">" and item[j - 1] != "-":
+                depth -= 1
+                if depth == 0:
+                    return [item[:pos] + item[j + 1:]]
+        return []
+    words = []
+    for w in re.findall(r"[A-Za-z_]\w*", item[pos:]):
+        if (w in PRIMS or w[0].isupper()) and w not in words and w not in ("Self", m.group(3)):
+            words.append(w)
+    return [item[:pos] + "<" + ", ".join(words[:6]) + ">" + item[pos:]] if words else []
+
+
 def run(chk, tier, seed, replay):
     chk.assumptions += ["fresh processes differ in their RandomState seeds (std), so a seeded hash collection shows as differing digests",
                         "digest = sha256 of the proc_macro2 token text of the expansion"]
@@ -54,6 +84,11 @@ def run(chk, tier, seed, replay):
         for derives, item in split_items(decl):
             for d in derives:
                 inputs.append((d, item))
+    base = list(inputs)
+    for d, it in base:
+        for tw in twins(it):
+            inputs.append((d, tw))
+    chk.notes["twin_inputs"] = len(inputs) - len(base)
     reqs = [{"key": f"{i}", "derive": d, "item": it, "tokens": True} for i, (d, it) in enumerate(inputs)]
     if replay:
         want = json.load(open(replay))["case"]["input"]
@@ -127,5 +162,6 @@ def run(chk, tier, seed, replay):
         if outs[0] and outs[0] != outs[1]:
             chk.deviation("rustc:unpretty", "two rustc runs expand the same crate differently", case={"crate": dpath},
                           expected="byte-identical -Zunpretty=expanded output", observed="differs", tags={"kind": "nondeterministic"})
-    chk.cov["rule"] = ("inputs: hashed-collection stress inputs + one per code path of every derive; K fresh processes x orders x "
+    chk.cov["rule"] = ("inputs: hashed-collection stress inputs + one per code path of every derive + a twin of each with the roles of "
+                       "its names exchanged (generic <-> concrete); K fresh processes x orders x "
                        "repeats; non-trivial = inputs iterating hashed collections")
